@@ -20,6 +20,9 @@ ASSUMPTIONS = ["the follower's net effect on nested lambdas is modelled function
 
 
 def run(ctx):
+    import interp_types_probe
+
+    interp_types_probe.run(ctx, "C07")
     typed.run_cases(ctx, ctx.n(30, 200), 60, ID)
 
 
